@@ -236,6 +236,7 @@ public:
             else if ( c.op == "event" )       op_event( c );
             else if ( c.op == "step" )        op_step( c );
             else if ( c.op == "ff" )          op_ff( c );
+            else if ( c.op == "seek" )        op_seek( c );
             else if ( c.op == "q" )           op_queue( c );
             else if ( c.op == "notify" )      op_notify( c );
             else if ( c.op == "cancel" )      op_cancel( c );
@@ -523,6 +524,32 @@ private:
         }
         t_.ev( "FF" ).f( "n", done ).f( "ivals", sim_.interval ? ( ll_->t0() - start ) / sim_.interval : 0 ).f( "rem", sim_.interval ? ( ll_->t0() - start ) % sim_.interval : 0 )
           .f( "cev", sim_.next_event - ev0 );
+        log_effects();
+    }
+
+    // seek <min> <mod> <rem> <flags>: steps (empty PDUs, the given radio flags; at least one) until the CENTRAL's own event
+    // index (its next event) is >= min and congruent rem modulo mod. With the error flag (32) every step is the next
+    // connection event, so the event armed afterwards is exactly the central's next event: positions the connection at a
+    // chosen event index / channel index (index mod 37) / just before the wrap of the 16 bit event counter without
+    // reading anything from the implementation. Logged as one FF event.
+    void op_seek( const verif::command& c )
+    {
+        const us_t start = ll_->t0();
+        const long long ev0 = sim_.next_event;
+        const long long min = c.arg( 0, 0 ), mod = std::max< long long >( 1, c.arg( 1, 1 ) ), rem = c.arg( 2, 0 );
+        const event_flags flags = event_flags::from_bits( unsigned( c.arg( 3, 32 ) ) );
+        long long done = 0;
+        bool more = sim_.active && sim_.interval;
+        while ( more && done < 400000 )
+        {
+            if ( !do_step( false, flags, 1, false ) ) break;
+            ++done;
+            g_cb.clear();
+            more = !( sim_.next_event >= min && sim_.next_event % mod == rem );
+            if ( more ) ll_->take_calls();
+        }
+        t_.ev( "FF" ).f( "n", done ).f( "ivals", sim_.interval ? ( ll_->t0() - start ) / sim_.interval : 0 ).f( "rem", sim_.interval ? ( ll_->t0() - start ) % sim_.interval : 0 )
+          .f( "cev", sim_.next_event - ev0 ).f( "nextev", sim_.next_event );
         log_effects();
     }
 
